@@ -2,7 +2,7 @@
    sizes only, never an offset; the relocated holder is still a collision-free layout, so the copy theorems apply to it:
    what is copied / installed is exactly the relocated bytes. *)
 From Coq Require Import ZArith List Bool Lia.
-From Verif Require Import Codec.OffsetModel Reloc.RelocModel Reloc.RelocProofs Sections.SectionModel Sections.SectionProofs Sections.CopyProofs Sections.ChunkProofs Sections.ShrinkProofs Sections.StableProofs Sections.CoverProofs Sections.SettleProofs
+From Verif Require Import Codec.OffsetModel Reloc.RelocModel Reloc.RelocProofs Sections.SectionModel Sections.SectionProofs Sections.CopyProofs Sections.ChunkProofs Sections.ShrinkProofs Sections.StableProofs Sections.CoverProofs Sections.SettleProofs Sections.SectionTable Sections.JitCopyModel Sections.JitCopyProofs
   Sections.ChunkModel Sections.JitReloc.
 Import ListNotations.
 Local Open Scope Z_scope.
@@ -165,7 +165,7 @@ Proof.
       rewrite forallb_forall in Eb. specialize (Eb c Hc). unfold site_in_bounds in Eb.
       apply andb_true_iff in Eb. destruct Eb as [Eb E4]. apply andb_true_iff in Eb. destruct Eb as [Eb E3]. apply andb_true_iff in Eb. destruct Eb as [E1 E2].
       apply Z.leb_le in E1, E3, E4. apply Z.ltb_lt in E2. unfold site_entry, site_pos, site_len, CALL_LEN, ABS_LEN in *.
-      destruct c as [pos addr|pos tg lo|pos t1 o1 t2 o2 n]; cbn [e_off e_lead e_fmt vsize sfmt ufmt]; lia. }
+      destruct c as [pos addr|pos tg lo|pos t1 o1 t2 o2 n|pos addr]; cbn [e_off e_lead e_fmt vsize sfmt ufmt]; lia. }
   fold G.
   assert (HF : Forall2 shr_rel h (map G h) /\ Forall data_ok (map G h) /\ map soff (map G h) = map soff h /\ map sid (map G h) = map sid h).
   { split; [apply Forall2_map_in; intros s Hs; apply Hel; assumption|]. split; [|split].
@@ -326,4 +326,44 @@ Proof.
   destruct (Forall2_in_l _ _ _ _ Hsz Hin) as [s2 [Hin2 [Ho Hrs]]]. exists s2. split; [assumption|]. rewrite Ho.
   destruct Hrs as [->|[_ [[l1 El] ->]]]; [assumption|].
   destruct (final_code_size_is_end h0 h Hwf Ef) as [Hend _]. rewrite (Hend l1 s El) in Hc. lia.
+Qed.
+
+(* JitRuntime::_add's own copy loop on the RELOCATED holder installs what copy_flattened_data(kPadSectionBuffer) installs *)
+Theorem relocated_jit_copy_agrees h0 h tab calls base h2 red mem m1 :
+  reachable h0 -> data_len_ok h0 -> flatten h0 = (EOk, h) -> relocate_holder h tab calls base = inl (h2, red) ->
+  code_size h <= Z.of_nat (length mem) ->
+  copy_flat h2 mem (Z.of_nat (length mem)) true false = (EOk, m1) ->
+  length (jit_copy h2 mem) = length m1 /\ forall c, 0 <= c -> cell (jit_copy h2 mem) c = cell m1 c.
+Proof.
+  intros R Hdl Ef Er Hest Ec.
+  pose proof (r_flatten h0 h R Ef) as Rh. destruct (reachable_inv h0 R) as [_ [_ Hwf]].
+  destruct (reachable_ids_unique h Rh) as [Hnd Hpos].
+  destruct (final_copy_ready h0 h Hwf Hdl Ef) as [Hd Hdis].
+  destruct (final_code_size_is_end h0 h Hwf Ef) as [_ [Hb _]].
+  destruct (relocate_holder_ok h tab calls base h2 red Hnd Hpos Hd Hdis Er) as [D2 [Dis2 [Shr [_ [Eid _]]]]].
+  assert (Hlen : length h2 = length h) by (rewrite <- (map_length sid h2), Eid, map_length; reflexivity).
+  apply jit_copy_agrees_generic; try assumption.
+  - rewrite Eid. assumption.
+  - intros x Hx. assert (Hi : In (sid x) (map sid h)) by (rewrite <- Eid; apply in_map; assumption).
+    apply in_map_iff in Hi. destruct Hi as [y [Ey Hy]]. rewrite <- Ey, Hlen.
+    destruct (reachable_inv h Rh) as [_ [Hic _]].
+    assert (In (sid y) (ids_upto (length h))) by (eapply Permutation.Permutation_in; [exact Hic|apply in_map; assumption]).
+    apply in_ids_upto in H. assumption.
+  - intros s2 Hs2. destruct (Forall2_in_r _ _ _ _ Shr Hs2) as [s [Hs [So [Sr _]]]]. destruct (Hb s Hs) as [_ [H1 _]]. lia.
+Qed.
+
+(* a conditional jump to an absolute address that is out of rel32 reach from the chosen base is refused (kRelocOffsetOutOfRange):
+   there is no address-table fallback for it, and nothing is wrapped.  Stated for such a site in front of any other sites. *)
+Theorem unreachable_jcc_refused h tab pos addr rest base text :
+  by_id h 0 = Some text -> forallb (site_in_bounds text) (SRel pos addr :: rest) = true ->
+  ~ (- 2 ^ 31 <= to_i64 (wrap 64 (addr - (base + (soff text + pos + CALL_LEN)))) < 2 ^ 31) ->
+  relocate_holder h tab (SRel pos addr :: rest) base = inr ROutOfRange.
+Proof.
+  intros Et Eb Hr. unfold relocate_holder. rewrite Et, Eb. cbn [negb map].
+  assert (He : forall atoff slots, relocate_entry base REG_SIZE atoff slots (site_entry h (soff text) (SRel pos addr)) = inr ROutOfRange).
+  { intros atoff slots. apply rel_out_of_range_reported; [reflexivity|unfold REG_SIZE; lia|exact Hr]. }
+  assert (Hrel : forall atoff reserved last, relocate base REG_SIZE atoff reserved last
+                   (site_entry h (soff text) (SRel pos addr) :: map (site_entry h (soff text)) rest) = inr ROutOfRange).
+  { intros atoff reserved last. unfold relocate. cbn [relocate_all]. rewrite He. reflexivity. }
+  destruct tab as [t0|]; [destruct (by_id h t0) as [ts|]|]; rewrite Hrel; reflexivity.
 Qed.
